@@ -5,7 +5,7 @@ mocker layer (Model/ApiC12.lean, a transcription of builder.go, cache.go, mocker
 last-writer-wins reference model (Model/LwwC12.lean), that a repeated lookup returns the live mocker unless it was
 cancelled, that Reset starts from scratch and that a Pkg override is consumed by the next lookup.
 Tie X: whole histories are executed on the real goom API by an in-package probe (harness/c12) and by the model
-driver; mocker identities and the behaviour class of all 9 targets after every step must agree.
+driver; mocker identities and the behaviour class of all 11 targets after every step must agree.
 Oracle: a separate last-writer-wins reference (below, in Python) is applied to what the implementation did.
 """
 import os
@@ -17,12 +17,13 @@ META = {
     'property_id': 'C12',
     'technique': 'Lean 4 refinement proof (induction over all op histories) of a transcribed model of builder/cache/mocker against a last-writer-wins reference + differential run of random histories on the real goom API',
     'level': 'proof',
-    'level_text': 'Full proof on the model: for every history of Func / Struct.Method / Interface.Method / ExportFunc / Var lookups combined with Apply, Return, When, When..Return, Returns, Cancel, Reset and Pkg, the behaviour of every target after every step equals the last-writer-wins reference; a repeated lookup returns the live mocker unless cancelled; after Reset everything is original and configuration starts afresh; a Pkg override is consumed by the next lookup. The model is tied to the source by executing random and systematic histories on the real API and on the model and comparing mocker identities and behaviour classes after every step.',
-    'level_note': 'Trusted: Lean kernel (axioms propext, Classical.choice, Quot.sound at most), the hand transcription Model/ApiC12.lean (validated on every run against the real code on the generated histories), the probe and its canonicalisation. Universe: one builder, 2 functions, 2 methods, 1 single-method interface variable, 2x2 unexported functions in two packages, int arguments/results; each target is reached through one kind of handle (the same function reached through Func and ExportFunc gets two independent mockers - outside the universe). The When algebra is shared between model and reference (it is the subject of C04/C05). reflect.MakeFunc, the patch layer and the GC are exercised, not modelled (GC is switched off in the probe: F9 belongs to C07).',
+    'level_text': 'Full proof on the model: for every history of Func / Struct.Method / Interface.Method / ExportFunc / ExportStruct.Method / Var lookups combined with Apply, Return, When, When..Return, Returns, Cancel, Reset and Pkg, the behaviour of every target after every step equals the last-writer-wins reference; a repeated lookup returns the live mocker unless cancelled; after Reset everything is original and configuration starts afresh; a Pkg override is consumed by the next lookup. The model is tied to the source by executing random and systematic histories on the real API and on the model and comparing mocker identities and behaviour classes after every step.',
+    'level_note': 'Trusted: Lean kernel (axioms propext, Classical.choice, Quot.sound at most), the hand transcription Model/ApiC12.lean (validated on every run against the real code on the generated histories), the probe and its canonicalisation. Universe: one builder, 2 functions, 2 methods, 1 single-method interface variable, 2x2 unexported functions and a same-named unexported struct method in two packages, int arguments/results; each target is reached through one kind of handle (the same function reached through Func and ExportFunc gets two independent mockers - outside the universe). The When algebra is shared between model and reference (it is the subject of C04/C05). reflect.MakeFunc, the patch layer and the GC are exercised, not modelled (GC is switched off in the probe: F9 belongs to C07).',
 }
 
-TARGETS = ['fA', 'fB', 'm1', 'm2', 'im', 'x0', 'y0', 'x1', 'y1']
-HANDLES = [('fn', 'fA'), ('fn', 'fB'), ('st', 'M1'), ('st', 'M2'), ('if', 'M'), ('xf', 'X'), ('xf', 'Y')]
+TARGETS = ['fA', 'fB', 'm1', 'm2', 'im', 'x0', 'y0', 'x1', 'y1', 'u0', 'u1']
+HANDLES = [('fn', 'fA'), ('fn', 'fB'), ('st', 'M1'), ('st', 'M2'), ('if', 'M'), ('xf', 'X'), ('xf', 'Y'), ('xs', 'um')]
+PKG_KINDS = ('xf', 'xs')        # lookups that resolve a name in the builder's package
 KEY_F7 = 'stub-after-apply-not-reinstalled'
 KEY_F14 = 'pkg-override-survives-var-lookup'
 
@@ -109,6 +110,8 @@ def tgt_name(kind, name, pkg):
         return 'im' if name == 'M' else None
     if kind == 'xf':
         return {'X': 'x', 'Y': 'y'}[name] + pkg[1] if name in ('X', 'Y') else None
+    if kind == 'xs':
+        return 'u' + pkg[1] if name == 'um' else None
     return None
 
 
@@ -162,7 +165,7 @@ def ref_ids(ops):
             pkg = 'p0'
             res.append('-')
         else:
-            key = (t[0], t[1], pkg if t[0] == 'xf' else '')
+            key = (t[0], t[1], pkg if t[0] in PKG_KINDS else '')
             pkg = 'p0'
             if t[0] == 'st' and t[1] not in ('M1', 'M2'):
                 res.append(None)           # panics: no mocker
@@ -215,7 +218,7 @@ def classify(ops, got, want):
 def classify_pkg(ops):
     """F14: an ExportFunc op that resolved its name in p1 although the last Pkg(p1) was followed by a var lookup."""
     t = ops[-1].split()
-    if t[0] != 'xf':
+    if t[0] not in PKG_KINDS:
         return None
     seen_var = False
     for o in reversed(ops[:-1]):
@@ -256,7 +259,7 @@ def gen_history(rng, maxlen, bad=False):
     n = 2 + rng.below(maxlen - 1)
     hs = [rng.choice(HANDLES) for _ in range(1 + rng.below(3))]
     if rng.chance(1, 3):
-        hs.append(('xf', rng.choice(['X', 'Y'])))
+        hs.append(rng.choice([('xf', 'X'), ('xf', 'Y'), ('xs', 'um')]))
     ops = []
     for _ in range(n):
         x = rng.below(20)
@@ -269,11 +272,11 @@ def gen_history(rng, maxlen, bad=False):
         elif bad and x == 3:
             ops.append(rng.choice(['st Mz look', 'xf nosuch apply k1', 'xf nosuch ret 1', 'xf nosuch look', 'xf nosuch cancel']))
         else:
-            if hs[0][0] != 'xf' and rng.chance(1, 6):
+            if hs[0][0] not in PKG_KINDS and rng.chance(1, 6):
                 k, nm = rng.choice(HANDLES)
             else:
                 k, nm = rng.choice(hs)
-            if k == 'xf' and rng.chance(1, 2):
+            if k in PKG_KINDS and rng.chance(1, 2):
                 ops.append('pkg p1')
             ops.append('%s %s %s' % (k, nm, gen_instr(rng)))
     return ' ; '.join(ops)
@@ -292,20 +295,32 @@ def systematic(depth):
             rec(prefix + [a])
     rec([])
     hist = []
-    for k, nm in [('fn', 'fA'), ('st', 'M1'), ('if', 'M'), ('xf', 'X')]:
+    for k, nm in [('fn', 'fA'), ('st', 'M1'), ('if', 'M'), ('xf', 'X'), ('xs', 'um')]:
         for seq in out:
             hist.append(' ; '.join('%s %s %s' % (k, nm, a) for a in seq))
     return hist
 
 
-def pkg_lane():
-    """Pkg followed by every pair of lookups (the clause `applies to the next lookup only`)."""
-    looks = ['fn fA look', 'st M1 look', 'if M look', 'xf X apply k1', 'xf Y ret 5', 'var set 3', 'reset', 'st Mz look', 'xf nosuch look']
+def pkg_lane(triples):
+    """Pkg followed by every pair (triple) of lookups of every kind - first-time lookups and cache hits (the same lookup
+    was already made under the same package before) - then probes that show where the package-sensitive names resolve
+    (the clause `applies to the next lookup only`)."""
+    looks = ['fn fA look', 'st M1 look', 'if M look', 'xf X look', 'xf Y ret 5', 'xs um look', 'xs um apply k1', 'var set 3',
+             'st Mz look', 'xf nosuch look']
+    probes = ['xf X apply k2 ; xs um apply k3 ; xf X ret 7 ; xs um ret 8']
     hist = []
+    seqs = [[a, b] for a in looks for b in looks]
+    if triples:
+        seqs += [[a, b, c] for a in looks for b in looks for c in looks]
     for p in ('p0', 'p1'):
+        for seq in seqs:
+            # cold: every lookup is the first of its kind; warm: each was made before under Pkg(p) (cache hit now),
+            # and Pkg(p) is repeated before each so that only the *hit* branches decide whether it is consumed
+            hist.append(' ; '.join(['pkg ' + p] + seq + probes))
+            hist.append(' ; '.join(['pkg ' + p, seq[0], 'pkg ' + p, seq[0]] + seq[1:] + probes))
         for a in looks:
-            for b in looks:
-                hist.append(' ; '.join(['pkg ' + p, a, b, 'xf X apply k2', 'xf X ret 7']))
+            warm = ' ; '.join('pkg %s ; %s' % (p, x) for x in looks)
+            hist.append(' ; '.join([warm, 'pkg ' + p, a] + probes))
     return hist
 
 
@@ -317,6 +332,8 @@ CORPUS = [
     'fn fA apply k1 ; fn fA ret 3 ; fn fA apply k2 ; fn fA ret 4 ; fn fA apply k3 ; fn fA whenret 1 5',
     'pkg p1 ; var set 3 ; xf Y apply k1',                               # F14
     'pkg p1 ; xf X apply k1 ; xf X apply k2 ; pkg p1 ; xf X look ; xf X cancel',
+    'pkg p1 ; xs um look ; pkg p1 ; xs um look ; xs um apply k1',        # seed c06-3: ExportStruct cache hit keeps the override
+    'pkg p1 ; xs um ret 1 ; pkg p1 ; xs um apply k2 ; pkg p1 ; xs um ret 3 ; xs um whenret 1 4 ; reset ; xs um look',
     'fn fA ret 1 ; fn fA cancel ; fn fA look ; fn fA whenret 1 2 ; reset ; fn fA look ; fn fA apply k0',
     'if M apply k1 ; if M cancel ; if M ret 2 ; reset ; if M look ; if M rets 1 2 3',
     'st M1 apply k1 ; st M2 ret 5 ; st M1 cancel ; st M1 ret 2 ; reset ; st M2 look',
@@ -326,7 +343,7 @@ CORPUS = [
 def gen_all(tier, rng):
     hist = list(CORPUS)
     hist += systematic(3)
-    hist += pkg_lane()
+    hist += pkg_lane(triples=True)
     n_valid, n_bad, maxlen = (1500, 300, 20) if tier == 'quick' else (60000, 8000, 30)
     if tier == 'thorough':
         hist += systematic(4)
@@ -480,14 +497,14 @@ def run(tier):
         'obligations': proof['obligations'], 'discharged': proof['discharged'],
         'checker_cmd': ' ; '.join(proof['cmds']),
         'trusted_base': ['Lean 4.33 kernel', 'axioms: ' + ', '.join(sorted({a for v in proof['axioms'].values() for a in v}) or ['none']),
-                         'hand transcription Model/ApiC12.lean of builder.go/cache.go/mocker.go/iface.go/when.go (validated: every history below ran on the real API and on the model, mocker identities and behaviour of 9 targets compared after every step)',
+                         'hand transcription Model/ApiC12.lean of builder.go/cache.go/mocker.go/iface.go/when.go (validated: every history below ran on the real API and on the model, mocker identities and behaviour of 11 targets compared after every step)',
                          'probe harness/c12 and its canonicalisation; Python last-writer-wins reference in checks/C12.py (third, independent statement of the property)',
                          'not modelled: reflect.MakeFunc, patch layer, GC (off in the probe), aliasing of one function through two kinds of handle'],
         'theorems': proof['axioms'], 'proof_failures': proof['failed'],
         'evaluations': len(hists), 'steps': nops, 'distinct_nontrivial': nontrivial,
         'traces_validated_against_impl': len(hists) - len(diffs),
-        'rule': 'one evaluation = one history (fresh builder) of 1..30 ops; after every op all 9 targets are called with 1 and 2; '
-                'lanes: regress corpus, all instruction triples (thorough: quadruples) over 8 instructions x 4 handle kinds, Pkg x lookup pairs, random valid, random with error ops; '
+        'rule': 'one evaluation = one history (fresh builder) of 1..30 ops; after every op all 11 targets are called with 1 and 2; '
+                'lanes: regress corpus, all instruction triples (thorough: quadruples) over 8 instructions x 5 handle kinds, Pkg x every pair and triple of 10 lookup forms (cold and as cache hits), random valid, random with error ops; '
                 'non-trivial = distinct observation in which some target is mocked',
         'distribution': {'histories': len(hists), 'ops': nops, 'op_kinds': dict(sorted(kinds.items())), 'result_classes_seen': sorted(classes),
                          'impl_vs_model_disagreements': len(diffs), 'model_vs_reference_disagreements': refdiff,
